@@ -14,6 +14,13 @@ T = {
  "C09": ("proof", "Coq theorem on the model (intruder declared last) + two-run comparison on the implementation for random intruders", "3.C09"),
  "C10": ("proof", "Coq theorem C10_summary (container dates exist iff all leaves below are placed; min start / max end) + leaf-only work list; tie: model correspondence on random trees + oracle at every nesting level", "3.C10"),
  "C11": ("proof", "Coq: the model is a total function on structural fuel (terminates within #leaves x (#slots+1) steps), no slot outside the horizon is touched, placed tasks lie inside the horizon; infeasible-project generator and corrupted texts in isolated workers (partial: Lark and the transformer are exercised by fault injection only)", "3.C11"),
+ "C12": ("proof", "Coq theorem on the global-state model (every run re-initialises the attribute mode before reading it; result independent of the state left by any history, incl. failing runs; schedule of a scheduled scenario is the identity) + histories in one interpreter (fresh / reused parser object, failing runs, repeated runs, second schedule()) and further hash seeds compared with a fresh process (partial: interpreter-level nondeterminism is covered by the runs only)", "3.C12"),
+ "C14": ("proof", "Coq theorems: per-slot working table and per-slot limit period table (regenerated period index, hours spec proved equal to the regenerated on-shift tests) are invariant under moving the start and all leave intervals by whole weeks - all tables, starts, resolutions, horizons; tie: translator + shifted/unshifted runs of the implementation for 13 week offsets up to 300 weeks", "3.C14"),
+ "C15": ("proof", "Coq theorems on the reference-resolution model (renaming invariance, relative = absolute, precedes inversion keeps the edge set) + six meaning-preserving rewrites applied to generated projects and run through the real parser (partial: the Lark grammar is not modelled)", "3.C15"),
+ "C16": ("proof", "Coq theorems on the scenario-view model (effective value = own, else nearest ancestor scenario, else base; scenario without overrides = parent; an override is local to its subtree; the scenario loop touches one component) + every scenario of multi-scenario runs compared (dates and full ledger) with the single-scenario project of its effective values", "3.C16"),
+ "C18": ("proof", "Coq theorems on the report-table model (rows = tasks in declaration order filtered by leaf flag; JSON cell = CSV cell for distinct titles; rendering does not change the schedule) + API and file renderings of generated reports compared with cells recomputed from the schedule and the ledger (partial: strftime/json/csv are oracles)", "3.C18"),
+ "C19": ("proof", "Coq theorems on the decision table of 'plan report' (exit status per input class, stdout = render(auto report) with report_id = hash of the input, independence of channel and of own reports) + the real entry point as a subprocess over input classes x channels x formats (partial: click and the OS are runtime)", "3.C19"),
+ "C20": ("proof", "Coq theorems: every exit path of the temp-file state machine removes what it created; runs over disjoint name sets commute under every interleaving (induction over the interleaving) + directory listings on every exit path and N concurrent real runs compared with solitary runs (partial: the concurrent runs are testing; name freshness is assumed)", "3.C20"),
  "C13": ("proof", "Coq theorems: each regenerated Cython function = its regenerated Python twin for all arguments in the no-wrap range (C ints written out as 32-bit wrap, cdivision semantics), return C types not narrower; tie: both sides regenerated every run + grid correspondence against the rebuilt .so and the fallback; whole projects with the extensions blocked", "3.C13"),
  "C17": ("proof", "Coq theorems on the regenerated functions: strict monotonicity, index(time(i)) = i, floor-inverse bracket, table covers [start, end], rejection / clamping, interval scanner (Python method and Cython kernel) = maximal runs of minimum length clipped to the window; tie: translator + exhaustive bounded grid on both twins", "3.C17"),
 }
